@@ -288,12 +288,20 @@ func SampleCase(test, c string) {
 // that died from an unrecoverable runtime error (stack overflow, concurrent map
 // write); the last file written identifies the crashing case.
 func Trace(test, ext, c string) {
+	lastMu.Lock()
+	lastTest, lastExt, lastCase = test, ext, c
+	lastMu.Unlock()
 	if traceDir == "" {
 		return
 	}
 	os.WriteFile(filepath.Join(traceDir, "last."+ext), []byte(c), 0o644)
 	os.WriteFile(filepath.Join(traceDir, "last.test"), []byte(test), 0o644)
 }
+
+var (
+	lastMu                      sync.Mutex
+	lastTest, lastExt, lastCase string
+)
 
 // Tracing reports whether cases are being traced.
 func Tracing() bool { return traceDir != "" }
@@ -388,7 +396,60 @@ func Check(t *testing.T, test string, n int, prop func(*rapid.T)) {
 	_ = flag.Set("rapid.seed", strconv.FormatUint(DeriveSeed(test), 10))
 	_ = flag.Set("rapid.shrinktime", "20s")
 	_ = flag.Set("rapid.nofailfile", "true")
-	rapid.Check(t, prop)
+	rapid.Check(t, func(rt *rapid.T) {
+		defer libraryPanic(rt, test)
+		prop(rt)
+	})
+}
+
+// libraryPanic turns a panic raised inside the library (the innermost non-runtime frame belongs to
+// github.com/llir/llvm) while a property is evaluated into a recorded violation: every property here
+// states an outcome for inputs of its domain, and a panic is not that outcome. Panics of the harness
+// itself and rapid's own control-flow panics are passed on unchanged.
+func libraryPanic(rt *rapid.T, test string) {
+	r := recover()
+	if r == nil {
+		return
+	}
+	if tn := fmt.Sprintf("%T", r); strings.HasPrefix(tn, "rapid.") || strings.HasPrefix(tn, "*rapid.") {
+		panic(r)
+	}
+	stack := string(debug.Stack())
+	if !PanicInLibrary(stack) {
+		panic(r)
+	}
+	if len(stack) > 3000 {
+		stack = stack[:3000]
+	}
+	lastMu.Lock()
+	lt, ext, c := lastTest, lastExt, lastCase
+	lastMu.Unlock()
+	if lt != test || c == "" {
+		ext, c = "txt", fmt.Sprintf("test %s, VERIF_SEED=%d shard %d/%d tier %s (rapid seed %d): the library panicked while the property was evaluated\n%v\n%s", test, p.Seed, p.Shard, p.NShards, p.Tier, DeriveSeed(test), r, stack)
+	}
+	Fail(rt, test, ext, c, "the library panics while the property is evaluated: %v\n%s", r, stack)
+}
+
+// PanicInLibrary reports whether the innermost frame of a panic stack that is neither runtime nor
+// testing code lies in the library under test.
+func PanicInLibrary(stack string) bool {
+	lines := strings.Split(stack, "\n")
+	seenPanic := false
+	for i := 0; i+1 < len(lines); i++ {
+		l := lines[i]
+		if strings.HasPrefix(l, "panic(") {
+			seenPanic = true
+			continue
+		}
+		if !seenPanic || strings.HasPrefix(l, "\t") || strings.HasPrefix(l, "goroutine") || l == "" {
+			continue
+		}
+		if strings.HasPrefix(l, "runtime.") || strings.HasPrefix(l, "runtime/") || strings.HasPrefix(l, "testing.") {
+			continue
+		}
+		return strings.HasPrefix(l, "github.com/llir/llvm/")
+	}
+	return false
 }
 
 // PerShard splits a total count over the shards.
